@@ -12,14 +12,22 @@ static std::string blockHeader(uint64_t n) { std::string d = std::to_string(n); 
 
 struct Expect { std::string out; int errors310 = 0; };
 
+// A case is the result calls of one handler, or - with O_UNIT markers in between - of the handlers of consecutive
+// units of one compound message ("Q0?;Q1?;Q2?").  The accounting of a streamed block belongs to the unit that
+// announced it (parser.c resets arbitrary_remaining for every command): data calls of a later unit that has not
+// announced a block of its own are beyond the announced length.
+static OItem mkUnit() { OItem it; it.kind = O_UNIT; return it; }
+
 // reference rendering of a handler's result calls
 static Expect render(const std::vector<OItem> &items) {
     Expect e;
     int count = 0;
     uint64_t remaining = 0;
-    auto delim = [&]() { if (count > 0) e.out += ","; };
+    bool earlier = false;        // an earlier unit of the message completed a result item: this unit's first item follows a ';'
+    auto delim = [&]() { if (count > 0) e.out += ","; else if (earlier) { e.out += ";"; earlier = false; } };
     for (auto &it : items) {
-        switch (it.kind) {
+        switch ((int) it.kind) {
+            case O_UNIT: if (count > 0) earlier = true; count = 0; remaining = 0; break;
             case O_I32: delim(); e.out += std::to_string((int32_t) it.u); count++; break;
             case O_MNEM: delim(); e.out += it.s; count++; break;
             case O_BLOCK: delim(); e.out += blockHeader(it.s.size()) + it.s; remaining = 0; count++; break;
@@ -51,12 +59,13 @@ static Expect render(const std::vector<OItem> &items) {
 static std::string itemsText(const std::vector<OItem> &items) {
     std::string s;
     for (auto &it : items) {
-        switch (it.kind) {
+        switch ((int) it.kind) {
             case O_I32: s += fmt("Int32(%d) ", (int32_t) it.u); break;
             case O_MNEM: s += "Mnemonic(" + it.s + ") "; break;
             case O_BLOCK: s += fmt("Block(%zu bytes) ", it.s.size()); break;
             case O_BLOCKHDR: s += fmt("Header(%llu) ", (unsigned long long) it.u); break;
             case O_BLOCKDATA: s += fmt("Data(%zu) ", it.s.size()); break;
+            case O_UNIT: s += "| next unit: "; break;
             case O_ARR: s += fmt("Array(elem=%d,n=%zu,%s) ", it.elem, it.arr.size(), it.format == SCPI_FORMAT_NORMAL ? "NORMAL" : "SWAPPED"); break;
             default: break;
         }
@@ -90,9 +99,17 @@ static std::vector<OItem> fromReplay(const Replay &r) {
 static std::string checkCase(const std::vector<OItem> &items) {
     armCase("sub=one\n" + replayOf(items));
     InstCfg k; k.bufLen = 16; k.queueLen = 256;   // large enough for every refused data call of a case
-    Cmd q; q.pattern = "Q?"; q.script.items = items; k.cmds.push_back(q);
+    std::string msg;
+    {
+        std::vector<std::vector<OItem>> units(1);
+        for (auto &it : items) { if (it.kind == O_UNIT) units.emplace_back(); else units.back().push_back(it); }
+        for (size_t u = 0; u < units.size(); u++) {
+            Cmd q; q.pattern = units.size() == 1 ? "Q?" : fmt("Q%zu?", u); q.script.items = units[u]; k.cmds.push_back(q);
+            msg += (u ? ";" : "") + q.pattern;
+        }
+    }
     Inst I(k);
-    I.input("Q?\n");
+    I.input(msg + "\n");
     if (!I.invariant.empty()) return I.invariant;
     Expect e = render(items);
     std::string out = I.out;
@@ -175,10 +192,59 @@ static void runGrid(const Opt &o, Ev &ev) {
         if (!run({mkHdr(n), d, mkInt(4)})) return;
         if (!run({mkInt(3), mkHdr(n), d, mkInt(4)})) return;
     }
-    ev.exhaustive["all 10 element types x lengths 0..300 x NORMAL/SWAPPED; blocks 0..300; header-only lengths up to 999999999; every split of a streamed block of <= 12 bytes into <= 4 data calls with an over-length attempt at every point"] = true;
+    // compound messages: a block left incomplete by one unit, data calls without a header in the next one (refused: nothing
+    // was announced by that unit), and complete streamed blocks in consecutive units
+    for (size_t n : {1, 2, 5, 12, 30}) for (size_t sent = 0; sent <= n; sent++) for (size_t more : {(size_t) 0, (size_t) 1, n - sent, n - sent + 1}) {
+        OItem d; d.kind = O_BLOCKDATA; d.s = std::string(sent, 'p');
+        OItem d2; d2.kind = O_BLOCKDATA; d2.s = std::string(more, 'q');
+        if (more == 0) continue;                                   // an empty data call without an announced block: left open
+        if (!run({mkHdr(n), d, mkUnit(), d2})) return;
+        if (!run({mkInt(1), mkHdr(n), d, mkUnit(), d2})) return;
+        if (!run({mkInt(1), mkHdr(n), d, mkUnit(), d2, mkUnit(), d2})) return;
+        if (sent == n) { if (!run({mkHdr(n), d, mkUnit(), mkHdr(more), d2, mkUnit(), mkInt(2)})) return; }
+    }
+    ev.exhaustive["all 10 element types x lengths 0..300 x NORMAL/SWAPPED; blocks 0..300; header-only lengths up to 999999999; every split of a streamed block of <= 12 bytes into <= 4 data calls with an over-length attempt at every point; blocks left at every fill level by one unit of a compound message and continued without a header by the next"] = true;
 }
 
+static std::vector<OItem> decodeUnit(Src &s);
 static std::vector<OItem> decode(Src &s) {
+    std::vector<OItem> v = decodeUnit(s);
+    if (!s.prob(1, 4)) return v;
+    // compound message of 2..3 units.  What separates the responses of two units is C06's subject and is only defined when
+    // the earlier unit completed a result item; after a unit that wrote a partial block and nothing else, the later units
+    // are reduced to their header-less data calls (which must all be refused).
+    int units = (int) s.range(2, 3);
+    bool dataOnly = false;
+    std::vector<OItem> cur = v;
+    for (int u = 1; u < units; u++) {
+        { int count = 0; uint64_t rem = 0; bool wrote = false;
+          for (auto &it : cur) switch ((int) it.kind) {
+              case O_BLOCKHDR: rem = it.u; wrote = true; break;
+              case O_BLOCKDATA: if (rem >= it.s.size()) { rem -= it.s.size(); if (rem == 0) count++; } break;
+              default: count++; wrote = true; rem = 0; break; }
+          if (wrote && count == 0) dataOnly = true; }
+        cur = decodeUnit(s);
+        if (dataOnly || s.prob(1, 3)) {
+            std::vector<OItem> only;
+            for (auto &it : cur) if (it.kind == O_BLOCKDATA && !it.s.empty()) only.push_back(it);
+            if (only.empty()) { OItem d; d.kind = O_BLOCKDATA; d.s = std::string(s.range(1, 6), 'q'); only.push_back(d); }
+            if (!dataOnly && s.coin()) only.push_back(mkInt(s.irange(-9, 9)));
+            cur = only;
+        }
+        // an item that follows a block left incomplete gets no defined separator; in a later unit the case stops there
+        { uint64_t rem = 0; size_t keep = cur.size();
+          for (size_t i = 0; i < cur.size(); i++) {
+              if (cur[i].kind == O_BLOCKDATA) { if (rem >= cur[i].s.size()) rem -= cur[i].s.size(); continue; }
+              if (rem > 0) { keep = i; break; }
+              rem = cur[i].kind == O_BLOCKHDR ? cur[i].u : 0;
+          }
+          cur.resize(keep); }
+        v.push_back(mkUnit());
+        v.insert(v.end(), cur.begin(), cur.end());
+    }
+    return v;
+}
+static std::vector<OItem> decodeUnit(Src &s) {
     std::vector<OItem> v;
     int n = (int) s.range(1, 5);
     for (int i = 0; i < n; i++) {
@@ -208,7 +274,8 @@ static std::string body(Src &s, Ev &ev) {
     std::vector<OItem> items = decode(s);
     std::string m = checkCase(items);
     ev.eval();
-    for (auto &it : items) ev.label(it.kind == O_ARR ? (it.format == SCPI_FORMAT_NORMAL ? "rand-array-normal" : "rand-array-swapped") : it.kind == O_BLOCKHDR ? "rand-streamed-block" : it.kind == O_BLOCK ? "rand-block" : it.kind == O_BLOCKDATA ? "rand-data-call" : "rand-scalar");
+    for (auto &it : items) if (it.kind == O_UNIT) { ev.label("rand-compound-message"); break; }
+    for (auto &it : items) if (it.kind != O_UNIT) ev.label(it.kind == O_ARR ? (it.format == SCPI_FORMAT_NORMAL ? "rand-array-normal" : "rand-array-swapped") : it.kind == O_BLOCKHDR ? "rand-streamed-block" : it.kind == O_BLOCK ? "rand-block" : it.kind == O_BLOCKDATA ? "rand-data-call" : "rand-scalar");
     if (nontrivial(items)) ev.nt(hashStr(replayOf(items)));
     if (nontrivial(items) && ev.wantSample()) ev.sample("random: " + itemsText(items));
     return m;
